@@ -162,7 +162,12 @@ def correspondence(ctx):
             ddir = os.path.join(work, "data_x_%d_%s" % (ei, variant))
             fitlib.write_data(ddir, "d.txt", x, y, sig)
             jobs = []
+            npar_tree = len({l for l in labels if l[:1] == "a" and l[1:].isdigit()})
             for lo_ in (False, True):
+                if lo_ and variant == "unresolved" and npar_tree <= 2:
+                    # log-space optimisation of 1-2 parameters searches magnitudes inside the box 10**pmin..10**pmax in each sign orthant: an
+                    # optimum at (nearly) zero lies outside what that mode is documented to find (C10: magnitudes within the search box)
+                    continue
                 jobs.append({"labels": labels, "index": -1, "log_opt": lo_})
                 jobs.append({"formula": formula, "index": -1, "log_opt": lo_})
             rc, out, err = esrv.run_py(repo, IMPL, [ddir, "d.txt", json.dumps(fitlib.SHIPPED["core_maths"]), json.dumps(jobs), str(ctx.seed % 10000)], timeout=2400)
